@@ -12,9 +12,10 @@ Rec == ndJsonDeserialize(IOEnv.TRACE)
 
 AbsD(a, b) == IF a > b THEN a - b ELSE b - a
 ScoreOK(sc, n, p, c) ==
-  \/ ~Has(c, "score")
-  \/ p > Len(sc)
-  \/ IF n <= 2 THEN c.score = sc[p] ELSE AbsD(c.score, sc[p]) <= 4 * n
+  /\ ~Has(c, "score_panic")     \* doc() named a document and reading its score panicked
+  /\ (\/ ~Has(c, "score")
+      \/ p > Len(sc)
+      \/ IF n <= 2 THEN c.score = sc[p] ELSE AbsD(c.score, sc[p]) <= 4 * n)
 
 \* 0 if every call of the program is explained, else the index of the first call that is not
 RECURSIVE FirstBad(_, _, _, _, _, _)
@@ -24,6 +25,10 @@ FirstBad(Sq, sc, n, prog, k, s) ==
        IF Explains(Sq, s, c) /\ ScoreOK(sc, n, After(Sq, s, c).i, c)
        THEN FirstBad(Sq, sc, n, prog, k + 1, After(Sq, s, c))
        ELSE k
+
+\* state before call k of a program (all earlier calls were explained)
+RECURSIVE StateAt(_, _, _, _, _)
+StateAt(Sq, prog, k, j, s) == IF j >= k THEN s ELSE StateAt(Sq, prog, k, j + 1, After(Sq, s, prog[j]))
 
 RECURSIVE FirstBadProg(_, _)
 FirstBadProg(e, j) ==
@@ -49,7 +54,8 @@ EvOK(e) ==
 VARIABLE l
 \* the machine variables of DocSet are not used by the judge (the judged sequences come from the trace)
 TInit == l = 1 /\ S = <<>> /\ st = St0 /\ h = <<>>
-TNext == l <= Len(Rec) /\ EvOK(Rec[l]) /\ l' = l + 1 /\ UNCHANGED vars
+\* (EvOK(..) = TRUE: a guard written as an expression - TLC would treat the disjunctions of a bare guard as action branches)
+TNext == l <= Len(Rec) /\ EvOK(Rec[l]) = TRUE /\ l' = l + 1 /\ UNCHANGED vars
 TSpec == TInit /\ [][TNext]_<<l, vars>>
 
 Diag(e) ==
@@ -57,8 +63,16 @@ Diag(e) ==
   ELSE IF ~SeqOK(e) THEN [why |-> "the plain-advance enumeration is not strictly increasing", q |-> e.q, seg |-> e.seg]
   ELSE IF ~StripesOK(e) THEN [why |-> "the scorer does not enumerate the documents of its query", q |-> e.q, abs |-> e.abs, lenS |-> Len(e.S)]
   ELSE LET b == FirstBadProg(e, 1) IN
+       LET c == e.progs[b[1]][b[2]]
+           s == StateAt(e.S, e.progs[b[1]], b[2], 1, St0) IN
        [why |-> "call not explained by the DocSet contract", q |-> e.q, seg |-> e.seg, lenS |-> Len(e.S),
-        prog |-> b[1], step |-> b[2], call |-> e.progs[b[1]][b[2]], program |-> e.progs[b[1]]]
+        prog |-> b[1], step |-> b[2], call |-> c, program |-> e.progs[b[1]],
+        valid |-> s.valid, pre |-> IF s.valid THEN At(e.S, s.i) ELSE -1,
+        legal |-> Legal(e.S, s, c),
+        expected_doc |-> IF Legal(e.S, s, c) THEN At(e.S, Pos(e.S, s, c)) ELSE -1,
+        data_ok |-> Legal(e.S, s, c) /\ DataOK(e.S, s, c),
+        ret_ok |-> Legal(e.S, s, c) /\ (After(e.S, s, c).valid => RetOK(e.S, s, c)),
+        score_ok |-> Legal(e.S, s, c) /\ ScoreOK(e.sc, e.n, After(e.S, s, c).i, c)]
 
 Accepted ==
   IF TLCGet("stats").diameter - 1 = Len(Rec) THEN TRUE
